@@ -68,6 +68,13 @@ inline void good_invented(const BaseGraph::DirectedGraph &graph, const std::vect
         graph.assertVertexInRange(v);
 }
 
+// D-NOEXCEPT -----------------------------------------------------------------------------------------------
+inline std::string bad_noexcept(const std::string &line) noexcept {
+    return line.substr(line.find(' ') + 1);      // substr throws out_of_range: terminate instead of an exception
+}
+
+inline std::size_t good_noexcept(const std::string &line) noexcept { return line.size(); }
+
 } // namespace fixture
 } // namespace BaseGraph
 
@@ -83,4 +90,6 @@ void bgcheck_fixture_use() {
     std::list<unsigned> l{1, 2};
     (void)BaseGraph::fixture::bad_cursor(l);
     (void)BaseGraph::fixture::good_cursor(l);
+    (void)BaseGraph::fixture::bad_noexcept("a b");
+    (void)BaseGraph::fixture::good_noexcept("a b");
 }
